@@ -401,6 +401,8 @@ enum Op<P> {
     SRetain(Pred<P>),
     SEq,
     SObs,
+    SShape,
+    SViewAt(P),
     SQ(P),
     SUnion(Nav<P>, Nav<P>),
     Alg(P, P, u8),
@@ -713,6 +715,8 @@ fn parse_op<P: Prefix>(t: &[&str]) -> Option<Op<P>> {
         }
         ("seq", 1) => Some(Op::SEq),
         ("sobs", 1) => Some(Op::SObs),
+        ("sshape", 1) => Some(Op::SShape),
+        ("sviewat", 2) => Some(Op::SViewAt(p_prefix(t[1])?)),
         ("sq", 2) => Some(Op::SQ(p_prefix(t[1])?)),
         ("sunion", 3) => Some(Op::SUnion(p_nav(t[1])?, p_nav(t[2])?)),
         ("alg", 4) => Some(Op::Alg(p_prefix(t[1])?, p_prefix(t[2])?, p_u8(t[3])?)),
@@ -893,6 +897,60 @@ fn exec<P: PT>(st: &mut State<P>, op: &Op<P>, o: &mut String, cap: usize) {
             let y = st.t2 == st.t;
             sep(o);
             w_b(o, y);
+        }
+        Op::SShape => {
+            let v = (&st.t).view();
+            let mut s = String::new();
+            let mut budget = cap;
+            set_shape_rec(&v, &mut s, 0, &mut budget);
+            sep(o);
+            o.push_str(&s);
+        }
+        Op::SViewAt(p) => {
+            // `view_at` on a set, read-only and mutable: existence, prefix, membership of the root,
+            // the keys below, existence of the two sides
+            let ro = (&st.t).view_at(p.clone());
+            match &ro {
+                None => {
+                    sep(o);
+                    o.push_str("none");
+                }
+                Some(v) => {
+                    key(o, "pfx=");
+                    w_p(o, v.prefix());
+                    key(o, "val=");
+                    w_b(o, v.value().is_some());
+                    let ks = coll(v.keys(), cap);
+                    key(o, "keys=");
+                    w_list(o, ks, |o, p| w_p(o, p));
+                    key(o, "l=");
+                    w_b(o, v.left().is_some());
+                    key(o, "r=");
+                    w_b(o, v.right().is_some());
+                }
+            }
+            let ro_some = ro.is_some();
+            let ro_keys: Vec<P> = match &ro {
+                Some(v) => coll(v.keys(), cap).into_iter().cloned().collect(),
+                None => Vec::new(),
+            };
+            drop(ro);
+            let mt = (&mut st.t).view_mut_at(p.clone());
+            let mt_some = mt.is_some();
+            if mt_some != ro_some {
+                panic!("set view_mut_at disagrees with view_at on existence");
+            }
+            if let Some(mv) = mt {
+                let (hl, hr) = (mv.has_left(), mv.has_right());
+                let tw = (&mv).view();
+                if tw.left().is_some() != hl || tw.right().is_some() != hr {
+                    panic!("set view_mut: has_left/has_right disagree with the read-only twin");
+                }
+                let ks: Vec<P> = coll(tw.keys(), cap).into_iter().cloned().collect();
+                if ks != ro_keys {
+                    panic!("set view_mut_at addresses other keys than view_at");
+                }
+            }
         }
         Op::SObs => {
             let n = st.t.len();
@@ -1182,7 +1240,7 @@ fn map_op<P: PT, T: Val>(
             // disagreement panics): contents, len(), is_empty(), and it must stay usable
             for seed in 0..3u8 {
                 let mut d: PrefixMap<P, T> = PrefixMap::new();
-                for k in 0..(seed as usize * 3) {
+                for k in 0..(seed as usize * 8) {
                     if let Some((p, v)) = saved.iter().nth(k) {
                         d.insert(p.clone(), v.clone());
                     }
@@ -1190,9 +1248,38 @@ fn map_op<P: PT, T: Val>(
                 if seed == 2 {
                     d = saved.clone();
                 }
+                // release some slots of the destination first (a destination with a non-empty free
+                // list): remove every second key
+                // (not for the copy of `saved`, whose counter may be off by the known view-counter class)
+                let ks: Vec<P> = if seed == 2 { Vec::new() } else { d.keys().cloned().collect() };
+                for (j, k) in ks.iter().enumerate() {
+                    if j % 2 == 0 {
+                        d.remove(k);
+                    }
+                }
                 d.clone_from(&*m);
                 if d != *m || d.len() != m.len() || d.is_empty() != m.is_empty() || c.len() != m.len() {
                     panic!("clone_from differs from clone");
+                }
+                // the destination must stay usable exactly like a clone: the same further
+                // insertions and removals give the same map
+                let mut r = m.clone();
+                for (j, (p, v)) in saved.iter().take(8).enumerate() {
+                    let a = d.insert(p.clone(), v.clone());
+                    let b = r.insert(p.clone(), v.clone());
+                    if a != b || d.len() != r.len() {
+                        panic!("clone_from: insert into the destination differs from insert into a clone");
+                    }
+                    if j % 3 == 2 {
+                        let a = d.remove(p);
+                        let b = r.remove(p);
+                        if a != b {
+                            panic!("clone_from: remove from the destination differs from remove from a clone");
+                        }
+                    }
+                }
+                if d != r || d.len() != r.len() || d.iter().count() != r.iter().count() {
+                    panic!("clone_from: the destination diverges from a clone under the same operations");
                 }
                 let before = d.len();
                 let had = d.insert(P::zero(), T::new(7)).is_some();
@@ -1730,6 +1817,28 @@ fn dump<P: PT, T: Val>(v: &TrieView<'_, P, T>, o: &mut String, cap: usize) {
     let r = v.right();
     key(o, "r=");
     w_opt_p(o, r.as_ref().map(|x| x.prefix()));
+}
+
+fn set_shape_rec<P: PT>(v: &TrieView<'_, P, ()>, s: &mut String, depth: usize, budget: &mut usize) {
+    if depth > 1024 || *budget == 0 {
+        panic!("hang guard");
+    }
+    *budget -= 1;
+    s.push('(');
+    w_p(s, v.prefix());
+    s.push(' ');
+    s.push(if v.value().is_some() { '1' } else { '-' });
+    s.push(' ');
+    match v.left() {
+        Some(l) => set_shape_rec(&l, s, depth + 1, budget),
+        None => s.push('.'),
+    }
+    s.push(' ');
+    match v.right() {
+        Some(r) => set_shape_rec(&r, s, depth + 1, budget),
+        None => s.push('.'),
+    }
+    s.push(')');
 }
 
 fn shape_string<P: PT, T: Val>(v: &TrieView<'_, P, T>, cap: usize) -> String {
